@@ -24,6 +24,10 @@ type Case struct {
 	Declared []uint32       `json:"declared"`
 	Params   []Param        `json:"params,omitempty"`
 	Others   [][]Param      `json:"others,omitempty"` // further portals bound (text format) between this Bind and its Execute
+	// Names: the checked portal and the first other portal are called Names[0] and Names[1] (a pair of
+	// distinct names that are easily taken for one: case, length, hash collisions, ...)
+	Names      []string `json:"names,omitempty"`
+	NameFamily string   `json:"name_family,omitempty"`
 	PShape   string         `json:"pshape"`           // none | one | each
 	RFmts    []int16        `json:"rfmts,omitempty"`
 	Limit    int            `json:"limit"`
@@ -31,6 +35,20 @@ type Case struct {
 }
 
 const q = "select $1"
+
+func (c Case) pname() string {
+	if len(c.Names) == 2 {
+		return c.Names[0]
+	}
+	return "p"
+}
+
+func (c Case) oname(i int) string {
+	if len(c.Names) == 2 && i == 0 {
+		return c.Names[1]
+	}
+	return fmt.Sprintf("o%d", i)
+}
 
 func (c Case) history() (play.History, []string) {
 	st := script.Stmt{Cols: c.Cols, Params: c.Declared}
@@ -79,7 +97,7 @@ func (c Case) history() (play.History, []string) {
 	h.Msgs = []script.CMsg{
 		{K: "P", Name: "s", Query: q},
 		{K: "D", Kind: 'S', Name: "s"},
-		{K: "B", Portal: "p", Name: "s", PFmts: pfmts, Params: params, RFmts: c.RFmts},
+		{K: "B", Portal: c.pname(), Name: "s", PFmts: pfmts, Params: params, RFmts: c.RFmts},
 	}
 	// other portals on the same statement, bound after "p" and before "p" is executed: each
 	// Execute must still deliver the parameters of its own Bind
@@ -107,11 +125,11 @@ func (c Case) history() (play.History, []string) {
 		if len(orf) == 0 && i%2 == 0 {
 			orf = []int16{1}
 		}
-		h.Msgs = append(h.Msgs, script.CMsg{K: "B", Portal: fmt.Sprintf("o%d", i), Name: "s", PFmts: fm, Params: vals, RFmts: orf})
+		h.Msgs = append(h.Msgs, script.CMsg{K: "B", Portal: c.oname(i), Name: "s", PFmts: fm, Params: vals, RFmts: orf})
 	}
-	h.Msgs = append(h.Msgs, script.CMsg{K: "D", Kind: 'P', Portal: "p"}, script.CMsg{K: "E", Portal: "p"})
+	h.Msgs = append(h.Msgs, script.CMsg{K: "D", Kind: 'P', Portal: c.pname()}, script.CMsg{K: "E", Portal: c.pname()})
 	for i := range c.Others {
-		h.Msgs = append(h.Msgs, script.CMsg{K: "E", Portal: fmt.Sprintf("o%d", i)})
+		h.Msgs = append(h.Msgs, script.CMsg{K: "E", Portal: c.oname(i)})
 	}
 	h.Msgs = append(h.Msgs, script.CMsg{K: "S"})
 	return h, scanAs
@@ -143,6 +161,7 @@ func Run(c Case) core.Result {
 	lab(c.TLS, "inside-tls")
 	lab(len(c.Params) > 100, ">100-parameters")
 	lab(len(c.Others) > 0, "several-portals-bound-before-execute")
+	lab(len(c.Others) > 0 && c.NameFamily != "", "names="+c.NameFamily)
 	res.Labels = append(res.Labels, "pshape="+c.PShape)
 	mixed := false
 	for i := range c.RFmts {
@@ -167,7 +186,7 @@ func Run(c Case) core.Result {
 		if msg.K != "E" {
 			return ""
 		}
-		if msg.Portal != "p" {
+		if msg.Portal != c.pname() {
 			return ""
 		}
 		for _, ev := range env.Trace() {
